@@ -207,6 +207,17 @@ def run(chk: Check) -> None:
                     specs.append({"file": rel, "delta": inner[i - 1] - first, "kind": "real", "site": starts[i - 1]})
                 continue
             text, lines, dcol = progs[k % len(progs)]
+            if sc["kind"] == "tail":
+                # the bystander (judged against `must` = nothing) and its twin, which carries the findings
+                by, twin = (f"tl{k}.py", f"svc/tl{k}.py") if k % 2 == 0 else (f"svc/tl{k}.py", f"tl{k}.py")
+                for r_ in (by, twin):
+                    files[r_] = text + "\n"
+                    site_lines[r_] = lines
+                exp_sites[by] = []
+                exp_sites[twin] = [lines[i - 1] for i in sorted(sc["reported"])]
+                for i in sorted(sc["reported"]):
+                    specs.append({"file": twin, "delta": lines[i - 1] - first, "kind": "real", "dcol": dcol})
+                continue
             rel = f"pkg/code{k}.py" if k % 3 == 0 else f"code{k}.py"
             files[rel] = text + "\n"
             site_lines[rel] = lines
@@ -231,7 +242,66 @@ def run(chk: Check) -> None:
                        "site_lines": {"code.py": progs[0][1]}, "site_findings": {}, "expect": {"siteMay": {"code.py": []}, "siteMust": {"code.py": []}}}],
             "_meta": {"codemod": cid, "si": si, "tool": tpl.tool, "exp": {"code.py": []}, "site_lines": {"code.py": progs[0][1]}, "empty": True},
         })
-    results = runner.run_many(scenarios)
+    # ---- two sites on ONE line (`site; site`): a column offset instead of a line offset; all four subsets.
+    # Judged on the text of that line (a line-level observation cannot tell the two sites apart).
+    pair_scn = []
+    for cid in sorted(best):
+        seed, site, tpl = best[cid][0]
+        if tpl.tool == "defectdojo":
+            continue  # reports lines only
+        lno, old, new = site
+        if "#" in old or ";" in old:
+            continue
+        ind = seeds.indent_of(old)
+        src = seed.input.split("\n")
+        variants = [("inplace", src[: lno - 1] + [old + "; " + old.strip() + "  # pair"] + src[lno:], ind, 0, len(old) + 2 - len(ind), new)]
+        if ind:
+            # the same pair at module level, first site at column 0 (imports of the seed kept)
+            head = [ln for ln in src[: lno - 1] if seeds.is_import_line(ln) and not ln.startswith((" ", "\t"))]
+            variants.append(("col0", head + [old.strip() + "; " + old.strip() + "  # pair"], "", -len(ind), len(old.strip()) + 2 - len(ind), new.strip()))
+        for vname, vlines, vind, dcol1, dcol2, vnew in variants:
+            text = "\n".join(vlines)
+            if not seeds.compiles(text):
+                continue
+            vold = old if vname == "inplace" else old.strip()
+            files, want, specs = {}, {}, []
+            for mask in range(4):
+                rel = f"pair{mask}.py"
+                files[rel] = text + "\n"
+                parts = [vnew if mask & 1 else vold, (vnew if mask & 2 else vold).strip()]
+                want[rel] = "; ".join(parts) + "  # pair"
+                delta = (len(vlines) - 1 if vname == "col0" else lno - 1) + 1 - lno
+                if mask & 1:
+                    specs.append({"file": rel, "delta": delta, "kind": "real", "dcol": dcol1})
+                if mask & 2:
+                    specs.append({"file": rel, "delta": delta, "kind": "real", "dcol": dcol2})
+            doc, _f = tpl.make(specs)
+            pair_scn.append({"id": f"C06-pair-{vname}-{cid}", "files": files, "resfiles": {"results.json": doc},
+                             "steps": [{"argv": ["{dir}", "--output", "{out}", "--codemod-include", cid, option_for(tpl.tool, doc), "{res}/results.json"], "keep_after": True}],
+                             "_pair": {"codemod": cid, "tool": tpl.tool, "want": want, "old": old, "new": new, "variant": vname}})
+    results = runner.run_many(scenarios + pair_scn)
+    pair_results = results[len(scenarios):]
+    results = results[: len(scenarios)]
+    pair_traces = []
+    for scn, r in zip(pair_scn, pair_results):
+        st = r["steps"][0]
+        m = scn["_pair"]
+        pair_traces.append(st["trace"])
+
+        def marked(rel):
+            return next((ln for ln in st["after"].get(rel, "").split("\n") if ln.endswith("# pair")), None)
+
+        if marked("pair3.py") != m["want"]["pair3.py"] or marked("pair0.py") != m["want"]["pair0.py"]:
+            chk.coverage["same_line_pairs_not_judged"] = chk.coverage.get("same_line_pairs_not_judged", 0) + 1
+            continue  # the codemod does not fix both sites of this shape even when both are reported: not a scenario
+        for mask in (1, 2):
+            rel = f"pair{mask}.py"
+            chk.count()
+            chk.nontrivial((m["codemod"], "same-line", m["variant"], mask))
+            if marked(rel) != m["want"][rel]:
+                chk.violation(f"C06|{m['codemod']}|same-line-{m['variant']}|reported={'first' if mask == 1 else 'second'}",
+                              f"{m['codemod']} ({m['tool']}): two sites on one line, finding for the {'first' if mask == 1 else 'second'} only: line is `{marked(rel)}`, "
+                              f"expected `{m['want'][rel]}`", {"argv": scn["steps"][0]["argv"], "text": scn["files"][rel], "results": scn["resfiles"]["results.json"]})
     # ---- scenario validation / pins: the control file (all sites reported) must be fully fixed
     control_ok = {}
     per_run = []
@@ -264,10 +334,10 @@ def run(chk: Check) -> None:
     chk.coverage["codemods_judged"] = len({scenarios[i]["_meta"]["codemod"] for i in judged})
     chk.coverage["codemods_discarded"] = sorted(set(best) - {scenarios[i]["_meta"]["codemod"] for i in judged})
     traces = [results[i]["steps"][0]["trace"] for i in judged]
-    verdicts, stats = tracecheck.validate(traces)
+    verdicts, stats = tracecheck.validate(traces + pair_traces)
     for s in stats:
         chk.add_tlc(s)
-    chk.coverage["traces_validated_against_impl"] += len(traces)
+    chk.coverage["traces_validated_against_impl"] += len(traces) + len(pair_traces)
     for i in judged:
         scn, st = scenarios[i], results[i]["steps"][0]
         m = scn["_meta"]
